@@ -11,7 +11,7 @@ from concurrent.futures import ThreadPoolExecutor
 
 VERIF = os.path.dirname(os.path.dirname(os.path.abspath(__file__)))
 SPEC = os.path.join(VERIF, "spec")
-OUT = os.path.join(VERIF, "out")
+OUT = os.environ.get("VERIF_OUT") or os.path.join(VERIF, "out")
 JAR = "/opt/veriftools/tla/tla2tools.jar:/opt/veriftools/tla/CommunityModules-deps.jar"
 
 
